@@ -11,7 +11,7 @@ use std::sync::Mutex;
 use std::sync::atomic::{AtomicU64, Ordering};
 use vcore::run::{Run, guarded, machinery_failure, spaced_samples};
 
-const DECLS: &str = "class B2(T, F) {}\nclass E3(X, Y(B2), Z(B2, B2)) {}\nclass R(Nil, Cons(B2, R)) {}\nclass S(val a: B2, val b: B2) {}\nclass W(P(S), Q) {}\nclass Opt<A>(None, Some(A)) {}\n";
+const DECLS: &str = "class B2(T, F) {}\nclass E3(X, Y(B2), Z(B2, B2)) {}\nclass R(Nil, Cons(B2, R)) {}\nclass S(val a: B2, val b: B2) {}\nclass W(P(S), Q) {}\nclass Opt<A>(None, Some(A)) {}\nclass U1(Only) {}\nclass N1(Wrap(B2)) {}\nclass N2(Both(N1, U1)) {}\n";
 
 #[derive(Clone, Debug, PartialEq, Eq, Hash, PartialOrd, Ord)]
 enum Ty {
@@ -24,6 +24,11 @@ enum Ty {
   OptOptB2,
   TupBB,
   TupBE,
+  /// single-variant enums: one nullary constructor, one with a payload, one of single-variant enums
+  U1,
+  N1,
+  N2,
+  TupN1N1,
 }
 
 impl Ty {
@@ -38,6 +43,10 @@ impl Ty {
       Ty::OptOptB2 => "Opt<Opt<B2>>",
       Ty::TupBB => "Pair<B2, B2>",
       Ty::TupBE => "Pair<B2, E3>",
+      Ty::U1 => "U1",
+      Ty::N1 => "N1",
+      Ty::N2 => "N2",
+      Ty::TupN1N1 => "Pair<N1, N1>",
     }
   }
   /// variants (name, payload types) for enums
@@ -49,6 +58,9 @@ impl Ty {
       Ty::W => vec![("P", vec![Ty::S]), ("Q", vec![])],
       Ty::OptB2 => vec![("None", vec![]), ("Some", vec![Ty::B2])],
       Ty::OptOptB2 => vec![("None", vec![]), ("Some", vec![Ty::OptB2])],
+      Ty::U1 => vec![("Only", vec![])],
+      Ty::N1 => vec![("Wrap", vec![Ty::B2])],
+      Ty::N2 => vec![("Both", vec![Ty::N1, Ty::U1])],
       _ => return None,
     })
   }
@@ -58,6 +70,7 @@ impl Ty {
       Ty::S => vec![Ty::B2, Ty::B2],
       Ty::TupBB => vec![Ty::B2, Ty::B2],
       Ty::TupBE => vec![Ty::B2, Ty::E3],
+      Ty::TupN1N1 => vec![Ty::N1, Ty::N1],
       _ => return None,
     })
   }
@@ -259,7 +272,7 @@ fn same_head_or_patterns(ty: &Ty) -> Vec<Pat> {
 
 fn arm_patterns(ty: &Ty) -> Vec<Pat> {
   let depth = match ty {
-    Ty::W | Ty::OptOptB2 => 3,
+    Ty::W | Ty::OptOptB2 | Ty::N2 | Ty::TupN1N1 => 3,
     _ => 2,
   };
   let mut ps = pats(ty, depth);
@@ -324,7 +337,7 @@ impl Case {
   }
 }
 
-const HEADER_LINES: usize = 8; // import line + DECLS (6) + "class Main {"
+const HEADER_LINES: usize = 11; // import line + DECLS (9) + "class Main {"
 
 fn module_text(cases: &[Case]) -> String {
   let mut s = String::from("import { Pair } from std.tuples\n");
@@ -394,7 +407,7 @@ fn check_module(cases: &[Case]) -> Result<(Heap, Verdicts), String> {
 fn main() {
   let run = Run::from_args("C07", "exploration");
   let max_arms = if run.quick() { 3 } else { 4 };
-  let types = [Ty::B2, Ty::E3, Ty::R, Ty::S, Ty::W, Ty::OptB2, Ty::OptOptB2, Ty::TupBB, Ty::TupBE];
+  let types = [Ty::B2, Ty::E3, Ty::R, Ty::S, Ty::W, Ty::OptB2, Ty::OptOptB2, Ty::TupBB, Ty::TupBE, Ty::U1, Ty::N1, Ty::N2, Ty::TupN1N1];
   if let Some(path) = run.replay.clone() {
     let text = std::fs::read_to_string(&path).unwrap_or_else(|e| machinery_failure(&format!("{e}")));
     let v: Value = serde_json::from_str(&text).unwrap_or_else(|e| machinery_failure(&format!("{e}")));
